@@ -353,6 +353,9 @@ typename small_vector<T,S>::iterator small_vector<T, S>::insert(
   if (i == end())  // Important special case
     return append(b, e);
 
+  if (b == e)  // Nothing to insert (shifting by zero would self-move elements)
+    return i;
+
   // Convert iterator to index to avoid invalidating iterator after reserve().
   const auto insert_index(static_cast<size_type>(i - begin()));
 
